@@ -43,10 +43,12 @@ func IsNumber(k string) bool {
 
 // Opts are the TestOptions passed to one test (or to Required / NotNil).
 type Opts struct {
-	Msg       string            `json:"msg,omitempty"`     // z.Message
-	MsgFunc   string            `json:"msgFunc,omitempty"` // z.MessageFunc: stamps this marker
-	Code      string            `json:"code,omitempty"`    // z.IssueCode
-	Path      string            `json:"path,omitempty"`    // z.IssuePath
+	Msg     string `json:"msg,omitempty"`     // z.Message
+	MsgFunc string `json:"msgFunc,omitempty"` // z.MessageFunc: stamps this marker
+	// MsgLast: both Msg and MsgFunc given: Message is passed AFTER MessageFunc (the later of the two options decides)
+	MsgLast   bool              `json:"msgLast,omitempty"`
+	Code      string            `json:"code,omitempty"` // z.IssueCode
+	Path      string            `json:"path,omitempty"` // z.IssuePath
 	HasParams bool              `json:"hasParams,omitempty"`
 	Params    map[string]string `json:"params,omitempty"` // z.Params
 	// Order in which the options are passed (indices into the canonical list
